@@ -89,22 +89,22 @@ theorem finishCheck_none (clock : Clock) (t : Task) (k : Nat)
 /-! ## `applyUpd` -/
 
 theorem applyUpd_id (u : UpdArgs) (t : Task) : (t.applyUpd u).id = t.id := by
-  unfold Task.applyUpd; cases u.total <;> cases u.advance <;> cases u.completed <;> cases u.visible <;> rfl
+  unfold Task.applyUpd; cases u.total <;> cases u.advance <;> cases u.completed <;> cases u.description <;> cases u.visible <;> rfl
 theorem applyUpd_startTime (u : UpdArgs) (t : Task) : (t.applyUpd u).startTime = t.startTime := by
-  unfold Task.applyUpd; cases u.total <;> cases u.advance <;> cases u.completed <;> cases u.visible <;> rfl
+  unfold Task.applyUpd; cases u.total <;> cases u.advance <;> cases u.completed <;> cases u.description <;> cases u.visible <;> rfl
 theorem applyUpd_stopTime (u : UpdArgs) (t : Task) : (t.applyUpd u).stopTime = t.stopTime := by
-  unfold Task.applyUpd; cases u.total <;> cases u.advance <;> cases u.completed <;> cases u.visible <;> rfl
+  unfold Task.applyUpd; cases u.total <;> cases u.advance <;> cases u.completed <;> cases u.description <;> cases u.visible <;> rfl
 theorem applyUpd_completed (u : UpdArgs) (t : Task) :
     (t.applyUpd u).completed = (u.completed.getD (t.completed + u.advance.getD 0)) := by
-  unfold Task.applyUpd; cases u.total <;> cases u.advance <;> cases u.completed <;> cases u.visible <;> simp
+  unfold Task.applyUpd; cases u.total <;> cases u.advance <;> cases u.completed <;> cases u.description <;> cases u.visible <;> simp
 theorem applyUpd_total (u : UpdArgs) (t : Task) : (t.applyUpd u).total = u.total.getD t.total := by
-  unfold Task.applyUpd; cases u.total <;> cases u.advance <;> cases u.completed <;> cases u.visible <;> simp
+  unfold Task.applyUpd; cases u.total <;> cases u.advance <;> cases u.completed <;> cases u.description <;> cases u.visible <;> simp
 theorem applyUpd_samples (u : UpdArgs) (t : Task) :
     (t.applyUpd u).samples = if u.total.isSome then [] else t.samples := by
-  unfold Task.applyUpd; cases u.total <;> cases u.advance <;> cases u.completed <;> cases u.visible <;> simp
+  unfold Task.applyUpd; cases u.total <;> cases u.advance <;> cases u.completed <;> cases u.description <;> cases u.visible <;> simp
 theorem applyUpd_finishedTime (u : UpdArgs) (t : Task) :
     (t.applyUpd u).finishedTime = if u.total.isSome then none else t.finishedTime := by
-  unfold Task.applyUpd; cases u.total <;> cases u.advance <;> cases u.completed <;> cases u.visible <;> simp
+  unfold Task.applyUpd; cases u.total <;> cases u.advance <;> cases u.completed <;> cases u.description <;> cases u.visible <;> simp
 
 /-! ## pruning keeps a suffix -/
 
@@ -220,8 +220,8 @@ theorem lookup_append_new {l : List Task} {t : Task} {id : Nat} (h : ∀ x ∈ l
 
 /-! ## effects on the addressed task -/
 
-theorem taskEffect_id (cfg : Cfg) (clock : Clock) (op : Op) (pre : Option Int) (t : Task) (k : Nat) :
-    (taskEffect cfg clock op pre t k).1.id = t.id := by
+theorem taskEffect_id (cfg : Cfg) (clock : Clock) (op : Op) (pre : Option Int) (o : Nat) (t : Task) (k : Nat) :
+    (taskEffect cfg clock op pre o t k).1.id = t.id := by
   unfold taskEffect
   cases op with
   | startTask _ => simp only; split <;> rfl
@@ -231,23 +231,32 @@ theorem taskEffect_id (cfg : Cfg) (clock : Clock) (op : Op) (pre : Option Int) (
   | stopTask => rfl
   | addTask => rfl
   | removeTask => rfl
+  | refresh => rfl
+  | start => rfl
+  | stop => rfl
 
-theorem taskEffect_clk_ge (cfg : Cfg) (clock : Clock) (op : Op) (pre : Option Int) (t : Task) (k : Nat) :
-    k ≤ (taskEffect cfg clock op pre t k).2 := by
+theorem taskEffect_clk_ge (cfg : Cfg) (clock : Clock) (op : Op) (pre : Option Int) (o : Nat) (t : Task) (k : Nat) :
+    k ≤ (taskEffect cfg clock op pre o t k).2 := by
   unfold taskEffect
   cases op with
   | startTask _ => simp only; split <;> simp
   | update _ u =>
     simp only [Task.updateBody]
-    exact Nat.le_trans (Nat.le_succ k) (finishCheck_clk_ge _ _ _)
+    refine Nat.le_trans ?_ (finishCheck_clk_ge _ _ _)
+    split
+    · unfold refreshK; omega
+    · omega
   | advance _ a =>
     simp only [Task.advanceBody]
     refine Nat.le_trans ?_ (finishCheck_clk_ge _ _ _)
     unfold nowOf; cases pre <;> simp
-  | reset => simp only; unfold nowOf; cases pre <;> simp
+  | reset => simp only; unfold nowOf refreshK; cases pre <;> simp <;> omega
   | stopTask => simp
   | addTask => simp
   | removeTask => simp
+  | refresh => simp
+  | start => simp
+  | stop => simp
 
 /-- well-formed: ids are below `_task_index` (so `add_task` always creates a new key) -/
 def WF (st : State) : Prop := ∀ t ∈ st.tasks, t.id < st.nextId
@@ -266,8 +275,8 @@ theorem body_target (cfg : Cfg) (clock : Clock) (op : Op) (pre : Option Int) (st
       match lookup st.tasks id with
       | none => ⟨{ st with clk := clkOnError clock op pre st.clk }, some .keyError⟩
       | some t =>
-        ⟨{ st with tasks := setTask id (taskEffect cfg clock op pre t st.clk).1 st.tasks,
-                   clk := (taskEffect cfg clock op pre t st.clk).2 }, none⟩ := by
+        ⟨{ st with tasks := setTask id (taskEffect cfg clock op pre (visCount (st.tasks.filter (fun x => x.id != id))) t st.clk).1 st.tasks,
+                   clk := (taskEffect cfg clock op pre (visCount (st.tasks.filter (fun x => x.id != id))) t st.clk).2 }, none⟩ := by
   cases op with
   | addTask => simp [Op.target] at ht
   | removeTask i => exact absurd rfl (hr i)
@@ -276,6 +285,9 @@ theorem body_target (cfg : Cfg) (clock : Clock) (op : Op) (pre : Option Int) (st
   | update i u => simp only [Op.target, Option.some.injEq] at ht; subst ht; simp only [body, Op.target]; cases lookup st.tasks i <;> rfl
   | reset i => simp only [Op.target, Option.some.injEq] at ht; subst ht; simp only [body, Op.target]; cases lookup st.tasks i <;> rfl
   | advance i a => simp only [Op.target, Option.some.injEq] at ht; subst ht; simp only [body, Op.target]; cases lookup st.tasks i <;> rfl
+  | refresh => simp [Op.target] at ht
+  | start => simp [Op.target] at ht
+  | stop => simp [Op.target] at ht
 
 /-- **Frame lemma.** After one operation, the task with id `id` is gone (it was removed), is the
 effect of the operation on it (it was addressed), or is unchanged. -/
@@ -283,7 +295,7 @@ theorem body_lookup (cfg : Cfg) (clock : Clock) (op : Op) (pre : Option Int) (st
     (id : Nat) (t : Task) (h : lookup st.tasks id = some t) :
     (op = .removeTask id ∧ lookup (body cfg clock op pre st).st.tasks id = none) ∨
     (op.target = some id ∧ (∀ i, op ≠ .removeTask i) ∧
-      lookup (body cfg clock op pre st).st.tasks id = some (taskEffect cfg clock op pre t st.clk).1 ∧
+      lookup (body cfg clock op pre st).st.tasks id = some (taskEffect cfg clock op pre (visCount (st.tasks.filter (fun x => x.id != id))) t st.clk).1 ∧
       (body cfg clock op pre st).err = none) ∨
     (op.target ≠ some id ∧ lookup (body cfg clock op pre st).st.tasks id = some t) := by
   have hid := (lookup_some h).2
@@ -305,12 +317,15 @@ theorem body_lookup (cfg : Cfg) (clock : Clock) (op : Op) (pre : Option Int) (st
       right; right
       refine ⟨by simp, ?_⟩
       cases op with
-      | addTask s tot c v =>
+      | addTask a =>
         simp only [body]
         rw [lookup_append_new (by intro x hx; exact hwf x hx)]
         have : id < st.nextId := hid ▸ hwf t (lookup_some h).1
         simp only
         rw [if_neg (by omega)]; exact h
+      | refresh => exact h
+      | start => simp only [body]; split <;> exact h
+      | stop => simp only [body]; split <;> exact h
       | removeTask i => exact absurd rfl (hr i)
       | startTask i => simp [Op.target] at htg
       | stopTask i => simp [Op.target] at htg
@@ -352,11 +367,14 @@ theorem body_lookup_none (cfg : Cfg) (clock : Clock) (op : Op) (pre : Option Int
     cases htg : op.target with
     | none =>
       cases op with
-      | addTask s tot c v =>
+      | addTask a =>
         simp only [body]
         rw [lookup_append_new (by intro x hx; exact hwf x hx)]
         simp only
         rw [if_neg (by omega)]; exact h
+      | refresh => exact h
+      | start => simp only [body]; split <;> exact h
+      | stop => simp only [body]; split <;> exact h
       | removeTask i => exact absurd rfl (hr i)
       | startTask i => simp [Op.target] at htg
       | stopTask i => simp [Op.target] at htg
@@ -390,7 +408,7 @@ theorem body_WF (cfg : Cfg) (clock : Clock) (op : Op) (pre : Option Int) (st : S
     cases htg : op.target with
     | none =>
       cases op with
-      | addTask s tot c v =>
+      | addTask a =>
         simp only [body]
         refine ⟨?_, Nat.le_succ _⟩
         intro t ht
@@ -398,6 +416,9 @@ theorem body_WF (cfg : Cfg) (clock : Clock) (op : Op) (pre : Option Int) (st : S
         rcases ht with ht | rfl
         · exact Nat.lt_succ_of_lt (hwf t ht)
         · exact Nat.lt_succ_self _
+      | refresh => exact ⟨hwf, Nat.le_refl _⟩
+      | start => simp only [body]; split <;> exact ⟨hwf, Nat.le_refl _⟩
+      | stop => simp only [body]; split <;> exact ⟨hwf, Nat.le_refl _⟩
       | removeTask i => exact absurd rfl (hr i)
       | startTask i => simp [Op.target] at htg
       | stopTask i => simp [Op.target] at htg
@@ -434,20 +455,22 @@ theorem run_WF (cfg : Cfg) (clock : Clock) (ops : List Op) (st : State) (hwf : W
   | cons op ops ih => exact ih _ (step_WF cfg clock op st hwf).1
 
 /-- the task as one sequential operation leaves it -/
-def taskAfter (cfg : Cfg) (clock : Clock) (op : Op) (st : State) (t : Task) : Task :=
-  (taskEffect cfg clock op (preRead cfg clock op st).1 t (preRead cfg clock op st).2.clk).1
+def taskAfter (cfg : Cfg) (clock : Clock) (op : Op) (st : State) (id : Nat) (t : Task) : Task :=
+  (taskEffect cfg clock op (preRead cfg clock op st).1 (visCount (st.tasks.filter (fun x => x.id != id))) t (preRead cfg clock op st).2.clk).1
 
 /-- **Frame lemma for `step`.** -/
 theorem step_lookup (cfg : Cfg) (clock : Clock) (op : Op) (st : State) (hwf : WF st)
     (id : Nat) (t : Task) (h : lookup st.tasks id = some t) :
     (op = .removeTask id ∧ lookup (step cfg clock op st).st.tasks id = none) ∨
     (op.target = some id ∧ (∀ i, op ≠ .removeTask i) ∧
-      lookup (step cfg clock op st).st.tasks id = some (taskAfter cfg clock op st t) ∧
+      lookup (step cfg clock op st).st.tasks id = some (taskAfter cfg clock op st id t) ∧
       (step cfg clock op st).err = none) ∨
     (op.target ≠ some id ∧ lookup (step cfg clock op st).st.tasks id = some t) := by
   have hp := preRead_tasks cfg clock op st
-  exact body_lookup cfg clock op (preRead cfg clock op st).1 _ (preRead_WF cfg clock op st hwf) id t
+  have := body_lookup cfg clock op (preRead cfg clock op st).1 _ (preRead_WF cfg clock op st hwf) id t
     (by rw [hp.1]; exact h)
+  rw [hp.1] at this
+  exact this
 
 theorem step_lookup_none (cfg : Cfg) (clock : Clock) (op : Op) (st : State) (hwf : WF st)
     (id : Nat) (hlt : id < st.nextId) (h : lookup st.tasks id = none) :
@@ -464,5 +487,67 @@ theorem run_lookup_none (cfg : Cfg) (clock : Clock) (ops : List Op) (st : State)
   | cons op ops ih =>
     have hs := step_WF cfg clock op st hwf
     exact ih _ hs.1 (Nat.lt_of_lt_of_le hlt hs.2) (step_lookup_none cfg clock op st hwf id hlt h)
+
+/-! ## task ids: strictly increasing in table order, never reused -/
+
+/-- ids in `_tasks` (insertion order) are strictly increasing — in particular pairwise distinct -/
+def IdsSorted (st : State) : Prop := List.Pairwise (fun a b : Task => a.id < b.id) st.tasks
+
+theorem IdsSorted_empty : IdsSorted State.empty := List.Pairwise.nil
+
+theorem setTask_idsSorted {id : Nat} {r : Task} {l : List Task} (hr : r.id = id)
+    (h : List.Pairwise (fun a b : Task => a.id < b.id) l) :
+    List.Pairwise (fun a b : Task => a.id < b.id) (setTask id r l) := by
+  unfold setTask
+  rw [List.pairwise_map]
+  refine List.Pairwise.imp ?_ h
+  intro a b hab
+  have ha : (if a.id = id then r else a).id = a.id := by split <;> simp_all
+  have hb : (if b.id = id then r else b).id = b.id := by split <;> simp_all
+  rw [ha, hb]; exact hab
+
+theorem body_idsSorted (cfg : Cfg) (clock : Clock) (op : Op) (pre : Option Int) (st : State) (hwf : WF st)
+    (h : IdsSorted st) : IdsSorted (body cfg clock op pre st).st := by
+  unfold IdsSorted at *
+  by_cases hrm : ∃ i, op = .removeTask i
+  · obtain ⟨i, rfl⟩ := hrm
+    simp only [body]
+    cases hl : lookup st.tasks i with
+    | none => exact h
+    | some x => exact List.Pairwise.sublist List.filter_sublist h
+  · have hr : ∀ i, op ≠ .removeTask i := fun i hi => hrm ⟨i, hi⟩
+    cases htg : op.target with
+    | none =>
+      cases op with
+      | addTask a =>
+        simp only [body]
+        rw [List.pairwise_append]
+        refine ⟨h, List.pairwise_singleton _ _, ?_⟩
+        intro x hx y hy
+        simp only [List.mem_singleton] at hy; subst hy
+        exact hwf x hx
+      | refresh => exact h
+      | start => simp only [body]; split <;> exact h
+      | stop => simp only [body]; split <;> exact h
+      | removeTask i => exact absurd rfl (hr i)
+      | startTask i => simp [Op.target] at htg
+      | stopTask i => simp [Op.target] at htg
+      | update i u => simp [Op.target] at htg
+      | reset i => simp [Op.target] at htg
+      | advance i a => simp [Op.target] at htg
+    | some j =>
+      rw [body_target cfg clock op pre st j htg hr]
+      cases hl : lookup st.tasks j with
+      | none => exact h
+      | some x => exact setTask_idsSorted (by rw [taskEffect_id]; exact (lookup_some hl).2) h
+
+theorem run_idsSorted (cfg : Cfg) (clock : Clock) (ops : List Op) (st : State) (hwf : WF st)
+    (h : IdsSorted st) : IdsSorted (run cfg clock ops st) := by
+  induction ops generalizing st with
+  | nil => exact h
+  | cons op ops ih =>
+    refine ih _ (step_WF cfg clock op st hwf).1 ?_
+    have hp := preRead_tasks cfg clock op st
+    exact body_idsSorted cfg clock op _ _ (preRead_WF cfg clock op st hwf) (by unfold IdsSorted; rw [hp.1]; exact h)
 
 end RichModel.Progress
